@@ -46,6 +46,51 @@ check("C20", "A", "exploration",
       "Windows of +-4096 s around 0, 2^31, 2^32 x four sub-second offsets x five fixed zones, extremes, and the builder path on real files with boundary mtimes; thorough: every whole second of the range x four sub-second offsets.",
       "Trusted: std SystemTime / chrono arithmetic.", "DESIGN.md 3/C20")
 
+check("C02", "C+A", "fault_enumeration",
+      "exhaustive exploration of all verifier accept/reject answer sequences over every enumerated signature-header shape, plus every single-bit flip of packages signed with real keys",
+      "263 250 signature-header shapes (OpenPGP tag absent / 0-3 items good, malformed, empty / wrong types x RSA, DSA, PGP tags x four digests absent/correct/wrong x two payloads); for each shape the scripted verifier's answers are explored exhaustively (choice-point explorer, unbounded deviations) and the oracle checks the 'only if': at least one call, all accepted, right data with right signature bytes, digests match. Packages built and signed by the library with Ed25519 and ECDSA (thorough: all four keys): every single-bit flip of header and payload, raw and with all digests recomputed, must not verify unless it parses to the original value; the other keys must reject the intact package.",
+      "Beyond 1-bit (selected 2-bit) modifications the claim rests on signature unforgeability / SHA-256. What the verifier is shown for malformed base64 is not judged.", "DESIGN.md 3/C02")
+check("C05", "A", "exploration",
+      "base header + all deviations up to a bound, accessors compared with an independent decoder (worker processes)",
+      "A complete well-formed header with pairwise distinct byte-asymmetric values; every 0-, 1- and 2-deviation variant from per-group menus (drop, retype to each other type, count 0/n-1/n+1, empty/multibyte/invalid UTF-8 values, 1-3 locales, 32/64-bit sizes, out-of-range dir index, every digest algorithm, optional arrays) for scalars, 8 dependency kinds, changelog, 8 scriptlets, files; all nine typed getters on retyped tags; all accessors on the six assets.",
+      "Trusted: vlib::refhdr::value. Undefined corners (arrays of unequal length, mistyped optional tags, digests that do not fit the algorithm) are not judged.", "DESIGN.md 3/C05, A.2")
+check("C06", "A", "exploration",
+      "exhaustive enumeration of builder configurations within k setter calls of the minimal one, reference = the supplied configuration itself",
+      "Minimal configuration + every ordered pair (quick) / plus every triple a<b<c (thorough) from a menu of ~150 setter calls (all scalars x 4 texts, epochs, 9 scriptlets x 4 variants, 8 dependency kinds x 3 constructors, changelog, 31 with_file variants, compressions, signing, source dates); build -> write -> parse -> each supplied value compared with its accessor; plus the package corpus.",
+      "Only supplied values are judged; user dependencies as an in-order subsequence; digest for regular files only.", "DESIGN.md 3/C06")
+check("C07", "A", "exploration",
+      "exhaustive enumeration of file sets x sizes x compressions x layouts, and of archive orders of hand-encoded packages",
+      "1 800 (quick) / ~9 000 (thorough) library-built packages: 0-3 files, every size mod 4 up to 64 KiB (5 MiB thorough), compressible/incompressible, name lengths up to 4000, every compression type (every documented level in thorough), standard and stripped (large-file, via the verif hook) layout; 156 hand-encoded packages with every ordered selection of archive entries incl. %ghost omission, gzip, stripped entries as rpm writes them. Oracle: exact sequence, bytes, size, digest, pairing by name/index.",
+      "The stripped layout is reached through the verif-hooks feature; > 4 GiB of real content is not exercised.", "DESIGN.md 3/C07")
+check("C08", "C+A", "fault_enumeration",
+      "exhaustive exploration of inner-writer answers under the hashing writer (bounded deviations), and independent recomputation of all recorded digests over the package corpus",
+      "Sha256Writer over a scripted sink: all 84 scripts of 1-3 write_all calls x every answer sequence {all, 1 byte, len-1, Interrupted, error} with <= 3 (4) deviations; the four digests (header SHA-256, payload, alternate uncompressed payload, per-file) of ~2 000 corpus packages incl. sign/clear histories and of builds with 200 KB - 8 MiB files with every compressor recomputed after independent decompression.",
+      "Decompressors and sha2 are the crates the library uses; cpio reader and header decoder are the harness's own.", "DESIGN.md 3/C08")
+check("C09", "A", "exploration",
+      "strict independent validator applied to every package of the enumerated corpus; validator cross-checked on rpmbuild assets and hand-broken packages",
+      "LEAD/HDR/REG/ENT/SIG/PAY/LIB rules (rpm's header verification, cpio reader, rpmlib features) on ~2 000 emitted packages (all compression types, both layouts, sign/clear histories, setter enumeration, payload enumeration) and on the assets after library sign/clear histories. Self-check on every run: six assets pass, 35 hand-broken packages are each rejected by the intended rule.",
+      "Only rules that the six rpmbuild-produced assets satisfy and that the statement lists are enforced.", "DESIGN.md 3/C09, A.5")
+check("C10", "B", "model_checking",
+      "explicit-state breadth-first search of the sign/clear/re-parse state graph whose transition function is the real API; closure reached",
+      "From 5 (quick) / 11 (thorough) start packages, operations {sign(k,t) for 3 (4) keys x 2 timestamps, clear, write+parse}; states deduplicated by the SHA-256 of the full byte image plus the reference last-signer; the graph closes (fixpoint), so the invariant holds for histories of any length over the alphabet: verify matrix (4 keys) = last signer, reported key id, digests, header and payload byte-identical.",
+      "Signers are deterministic for a fixed timestamp (this is what makes the graph finite); every transition is an implementation call.", "DESIGN.md 3/C10")
+check("C11", "C", "fault_enumeration",
+      "exhaustive enumeration of environment answers (hash seed x wall clock) on fresh threads and of fresh processes, with interposed getrandom/clock_gettime",
+      "8 configurations (up to 5 distinct non-root users and groups, mtimes around the source date, signed/unsigned) x 64 (quick) / 2000 (thorough) hash seeds x 4 clock values, every build on a fresh thread whose RandomState seed and SystemTime::now() the harness decides; plus freshly started processes with OS randomness, 5 TZ values, 3 working directories. Oracle: one output per configuration; BUILDTIME, FILEMTIMES, signature creation time <= source date.",
+      "Interposition self-test at start-up; S consecutive seeds, with the induced iteration orders of the owner set measured and reported.", "DESIGN.md 3/C11, 2.6")
+check("C12", "A", "exploration",
+      "exhaustive enumeration of hostile entry tuples, each extracted in a fresh jail by single-threaded worker processes; file-system model for benign packages",
+      "All 315 single entries, all ordered pairs over a 75-entry (quick) / 315-entry (thorough) alphabet, triples over a 40-entry core (thorough): '..' in dir/base names, absolute base names, slashes in base names, symlinks to outside files/dirs followed by entries at or below them, duplicates, fifo modes; oracle: byte-exact snapshot of everything outside the target before/after, no panic. 20 benign packages (built, assets, hand-encoded): every listed entry exists with content, permission bits, link target.",
+      "Escapes are observed inside a jail (<= 2 levels up, jail-internal absolute paths); Linux semantics; runs as the invoking user.", "DESIGN.md 3/C12")
+check("C14", "C", "fault_enumeration",
+      "choice-point exploration of sink/source answers with iterative deviation bounding, plus complete enumeration of failure offsets and chunk sizes",
+      "5 (10) packages x Package/PackageMetadata write: failure at EVERY byte offset (three styles), every chunk size 1..=64, and all executions with <= 1 (2) deviating answers out of {1 byte, len-1, Interrupted, Ok(0), error} at any write call; reading: every chunk size, truncation at every offset, <= 1 (2) deviating fill_buf answers.",
+      "Sinks/sources obey the Write/BufRead contracts.", "DESIGN.md 3/C14")
+check("C17", "A", "exploration",
+      "exhaustive enumeration of argument strings and levels",
+      "All 1 365 (thorough 21 845) destination strings over {/, ., .., a}; 22 621 capability strings over 12 tokens incl. tab, non-ASCII, NUL; 35 (type, level) pairs across and beyond each encoder's range; hostile metadata strings and mode integers through every setter. Oracle: no panic; must-reject destinations and unknown capability text give errors; accepted levels give a readable package.",
+      "Which in-between destinations are accepted is not specified.", "DESIGN.md 3/C17")
+
 NOT_YET = {}
 
 def main():
